@@ -34,10 +34,13 @@ def truth(spec):
     W = [np.zeros(3)]
     kicks = []
     pending = None
+    labels = ['start']
+    cur_pose = None
     for seg in spec['segments']:
         t = seg['t']
         if t == 'kick':
             pending = ('rel', qm.axang(seg['axis'], seg['angle']))
+            cur_pose = None
             continue
         if t == 'pose':
             pending = ('abs', qm.qnorm(np.array(seg['q'], dtype=float)))
@@ -57,6 +60,12 @@ def truth(spec):
             q = qm.qnorm(qm.qmul(q, dq))
             Q.append(q.copy())
             W.append(w.copy())
+            if t == 'pose':
+                cur_pose = 'pose:' + seg.get('name', '?')
+            elif t != 'rest':
+                cur_pose = None
+            labels.append(cur_pose if cur_pose is not None and t in ('pose', 'rest') else t)
+    truth.last_labels = labels
     return np.array(Q), np.array(W), kicks
 
 
@@ -84,6 +93,7 @@ class History:
         self.fault_mask = None   # (n,) bitmask of fired faults per tick
         self.fired = {}          # fault kind -> number of ticks it changed
         self.kicks = []
+        self.fixed_rows = {}
 
 
 _FBIT = {k: 1 << i for i, k in enumerate(('dropout', 'glitch', 'scale', 'stuck', 'dup', 'kick'))}
@@ -92,6 +102,7 @@ _FBIT = {k: 1 << i for i, k in enumerate(('dropout', 'glitch', 'scale', 'stuck',
 def build(spec, channels):
     """channels: list of (a_ref, m_ref).  Returns History."""
     Q, W, kicks = truth(spec)
+    labels = list(truth.last_labels)
     n = len(Q)
     rng = np.random.Generator(np.random.PCG64(int(spec.get('noise_seed', 0))))
     nz = spec.get('noise', {})
@@ -111,6 +122,11 @@ def build(spec, channels):
         if tiny.any():
             gyr[tiny] += floor * (n_g[tiny] / np.linalg.norm(n_g[tiny], axis=1)[:, None])
     Rt = np.array([qm.q2R(q).T for q in Q])
+    # exact canonical poses: entries that are 0 or +-1 up to rounding are made exactly so, so that the
+    # sensor images of "level", "inverted", "axis vertical" contain true zeros (where closed forms divide 0/0)
+    Rt[np.abs(Rt) < 1e-15] = 0.0
+    Rt[np.abs(Rt - 1.0) < 1e-15] = 1.0
+    Rt[np.abs(Rt + 1.0) < 1e-15] = -1.0
     acc, mag = {}, {}
     for a_ref, m_ref in channels:
         key = chan_key(a_ref, m_ref)
@@ -169,16 +185,22 @@ def build(spec, channels):
         acc = {k: v[idx] for k, v in acc.items()}
         mag = {k: v[idx] for k, v in mag.items()}
         truthQ, rate, mask = truthQ[idx], rate[idx], mask[idx] | dupmask
-    # glitches must not leave acc and mag parallel (the properties exclude it)
+        labels = [labels[i] for i in idx]
+    # no sample may leave acc and mag (nearly) parallel: the properties exclude it.  Faults that freeze or
+    # replace one of the two vectors while the body turns can produce it, so every tick is looked at.
+    fixed = {}
     for key in acc:
         a, m = acc[key], mag[key]
-        for k in range(len(a)):
-            if mask[k] & _FBIT['glitch']:
-                ang = qm.vec_angle(a[k], m[k])
-                if math.isfinite(ang) and (ang < math.radians(2.0) or ang > math.radians(178.0)):
-                    # rotate the magnetometer sample away by 10 degrees
-                    ax = np.cross(a[k], [1.0, 0.3, 0.1])
-                    m[k] = qm.q2R(qm.axang(ax, math.radians(10.0))) @ m[k]
+        na = np.linalg.norm(a, axis=1)
+        nm = np.linalg.norm(m, axis=1)
+        with np.errstate(all='ignore'):
+            s_ang = np.linalg.norm(np.cross(a, m), axis=1) / (na * nm)
+        for k in np.nonzero((s_ang < math.sin(math.radians(2.0))) & (na > 0) & (nm > 0))[0]:
+            ax = np.cross(a[k], [1.0, 0.3, 0.1])
+            if not np.linalg.norm(ax) > 1e-12 * max(na[k], 1e-300):
+                ax = np.cross(a[k], [0.1, 1.0, 0.3])
+            m[k] = qm.q2R(qm.axang(ax, math.radians(10.0))) @ m[k]
+            fixed.setdefault(key, set()).add(int(k))
     h.n = len(gyr)
     h.truth = np.ascontiguousarray(truthQ)
     h.rate = np.ascontiguousarray(rate)
@@ -188,6 +210,8 @@ def build(spec, channels):
     h.fault_mask = mask
     h.fired = fired
     h.kicks = kicks
+    h.labels = labels
+    h.fixed_rows = fixed       # per channel: rows whose magnetometer sample was turned away from the accelerometer's
     return h
 
 
